@@ -1222,6 +1222,254 @@ Proof.
 Qed.
 
 (* ------------------------------------------------------------------ *)
+(* requests (get/set) are never taken for a response                   *)
+
+Lemma request_routed s i v :
+  let k := length (routers s) in
+  let s' := c_run s [AArrive (request i v); ARouter k; ARouter k] in
+  chans s' = chans s /\ table s' = table s /\ ordinary s' = ordinary s ++ [request i v] /\
+  nth_error (routers s') k = Some {| r_iq := request i v; r_pc := RDone |}.
+Proof.
+  intros k s'. subst s'. rewrite !c_run_cons, c_run_nil, !step_router_eq.
+  set (s1 := c_step s (AArrive (request i v))).
+  set (t1 := {| r_iq := request i v; r_pc := RStart |}).
+  assert (K1 : nth_error (routers s1) k = Some t1) by apply nth_error_snoc_new.
+  rewrite (router_step_start_req s1 k t1 K1 eq_refl eq_refl). set (s2 := set_pc s1 k ROrd).
+  assert (K2 : nth_error (routers s2) k = Some (with_pc ROrd t1)).
+  { unfold s2. rewrite set_pc_routers. apply nth_error_upd_same. exact K1. }
+  rewrite (router_step_ord s2 k _ K2 eq_refl).
+  split; [reflexivity|]. split; [reflexivity|]. split; [reflexivity|].
+  rewrite set_pc_routers. cbn [add_ordinary routers].
+  rewrite (nth_error_upd_same _ _ _ _ K2). reflexivity.
+Qed.
+
+Definition values (ch : chst) (v : resp) : Prop := c_buf ch = Some v \/ In v (c_got ch).
+
+(* no goroutine routing a request ever holds a channel; nothing in a channel is a request *)
+Definition only_responses (s : cst) : Prop :=
+  (forall k t c, nth_error (routers s) k = Some t -> held_by t = Some c -> rreq (r_iq t) = false) /\
+  (forall c ch v, nth_error (chans s) c = Some ch -> values ch v -> rreq v = false).
+
+Lemma vals_upd (l : list chst) d f :
+  (forall c ch v, nth_error l c = Some ch -> values ch v -> rreq v = false) ->
+  (forall ch v, nth_error l d = Some ch -> values (f ch) v -> rreq v = false) ->
+  forall c ch v, nth_error (upd l d f) c = Some ch -> values ch v -> rreq v = false.
+Proof.
+  intros A B c ch v Hc Hv. apply nth_error_upd_inv in Hc as [[-> (x & E1 & ->)]|[_ Hc]].
+  - exact (B _ _ E1 Hv).
+  - exact (A _ _ _ Hc Hv).
+Qed.
+
+Lemma hold_upd (l : list rthread) k t pc' :
+  nth_error l k = Some t ->
+  (forall j tj c, nth_error l j = Some tj -> held_by tj = Some c -> rreq (r_iq tj) = false) ->
+  (forall c, held_by (with_pc pc' t) = Some c -> rreq (r_iq t) = false) ->
+  forall j tj c, nth_error (upd l k (with_pc pc')) j = Some tj -> held_by tj = Some c -> rreq (r_iq tj) = false.
+Proof.
+  intros Hk A B j tj c Hj Hh. apply nth_error_upd_inv in Hj as [[-> (x & E1 & ->)]|[_ Hj]].
+  - assert (x = t) by congruence. subst x. exact (B _ Hh).
+  - exact (A _ _ _ Hj Hh).
+Qed.
+
+Lemma only_responses_init : only_responses c_init.
+Proof.
+  split; [intros k t c Hk|intros c ch v Hc]; [destruct k|destruct c]; discriminate.
+Qed.
+
+Lemma only_responses_step s a : inv s -> only_responses s -> only_responses (c_step s a).
+Proof.
+  intros I (R1 & R2).
+  assert (Snoc : forall j, forall c ch v, nth_error (chans s ++ [new_chan j]) c = Some ch -> values ch v -> rreq v = false).
+  { intros j c ch v Hc Hv. apply nth_error_snoc_inv in Hc as [[_ Hc]|[_ ->]]; [exact (R2 _ _ _ Hc Hv)|].
+    destruct Hv as [Hv|Hv]; [discriminate Hv|destruct Hv]. }
+  destruct a as [j|d|r|k|d|d|d].
+  - cbn [c_step]. destruct (live s j); (split; [exact R1|apply Snoc]).
+  - cbn [c_step]. destruct (nth_error (chans s) d); split; assumption.
+  - split; [|exact R2]. cbn [c_step routers]. intros k t c Hk Hh.
+    apply nth_error_snoc_inv in Hk as [[_ Hk]|[_ ->]]; [exact (R1 _ _ _ Hk Hh)|discriminate Hh].
+  - rewrite step_router_eq.
+    destruct (router_step_spec s k I) as [Hi|t Hk Hpc Hq|t Hk Hpc Hq Hm|t e ch0 Hk Hpc Hq Hh E1 Eo Ef|t e ch0 Hk Hpc E1 Eo Ef|t e ch0 Hk Hpc E1 Ec|t e ch0 Hk Hpc E1 Ec|t Hk Hpc].
+    + split; assumption.
+    + split; [|exact R2]. rewrite set_pc_routers. apply (hold_upd _ _ t); [exact Hk|exact R1|]. intros c Hc; discriminate Hc.
+    + split; [|exact R2]. rewrite set_pc_routers. apply (hold_upd _ _ t); [exact Hk|exact R1|]. intros c Hc; discriminate Hc.
+    + split; [|exact R2]. rewrite set_pc_routers. cbn [set_table routers].
+      apply (hold_upd _ _ t); [exact Hk|exact R1|]. intros _ _. exact Hq.
+    + assert (Rt : rreq (r_iq t) = false) by (apply (R1 k t e Hk); unfold held_by; rewrite Hpc; reflexivity).
+      split.
+      * rewrite set_pc_routers. cbn [set_chans routers]. apply (hold_upd _ _ t); [exact Hk|exact R1|]. intros _ _. exact Rt.
+      * cbn [set_pc set_routers set_chans chans]. apply vals_upd; [exact R2|].
+        intros ch v Hc [Hv|Hv]; cbn [put_ch c_buf c_got] in Hv; [congruence|].
+        apply (R2 _ _ v Hc). right. exact Hv.
+    + split.
+      * rewrite set_pc_routers. cbn [set_chans routers]. apply (hold_upd _ _ t); [exact Hk|exact R1|]. intros c Hc; discriminate Hc.
+      * cbn [set_pc set_routers set_chans chans]. apply vals_upd; [exact R2|]. intros ch v Hc Hv. exact (R2 _ _ v Hc Hv).
+    + split.
+      * rewrite set_pc_routers. cbn [set_chans routers]. apply (hold_upd _ _ t); [exact Hk|exact R1|]. intros c Hc; discriminate Hc.
+      * cbn [set_pc set_routers set_chans chans]. apply vals_upd; [exact R2|]. intros ch v Hc Hv. exact (R2 _ _ v Hc Hv).
+    + split; [|exact R2]. rewrite set_pc_routers. cbn [add_ordinary routers].
+      apply (hold_upd _ _ t); [exact Hk|exact R1|]. intros c Hc; discriminate Hc.
+  - rewrite step_recv_eq. split; [exact R1|]. cbn [set_chans chans]. apply vals_upd; [exact R2|].
+    intros ch v Hc Hv. apply (R2 _ _ v Hc). unfold values, recv_ch in *. destruct (c_buf ch) as [w|] eqn:E; [|rewrite E in Hv; exact Hv].
+    cbn [c_buf c_got] in Hv. destruct Hv as [Hv|Hv]; [discriminate Hv|].
+    apply in_app_iff in Hv as [Hv|[<-|[]]]; auto.
+  - rewrite step_cancel_eq. split; [exact R1|]. cbn [set_chans chans]. apply vals_upd; [exact R2|].
+    intros ch v Hc Hv. exact (R2 _ _ v Hc Hv).
+  - cbn [c_step]. destruct (nth_error (chans s) d) as [ch0|]; [destruct (c_done ch0)|]; split; assumption.
+Qed.
+
+(* ------------------------------------------------------------------ *)
+(* a refused SendIQ changes nothing; its slot stays empty for ever      *)
+
+Lemma refused_spec s i :
+  live s i = true ->
+  let s' := c_step s (ARegister i) in
+  table s' = table s /\ routers s' = routers s /\ ordinary s' = ordinary s /\ arrived s' = arrived s /\
+  chans s' = chans s ++ [new_chan i] /\ refused s' = refused s ++ [length (chans s)] /\ panicked s' = panicked s.
+Proof. intros Lv. cbn [c_step]. rewrite Lv. cbn. repeat split. Qed.
+
+Lemma accepted_spec s i :
+  live s i = false ->
+  let s' := c_step s (ARegister i) in
+  lookup i (table s') = Some (length (chans s)) /\ chans s' = chans s ++ [new_chan i] /\ refused s' = refused s.
+Proof. intros Lv. cbn [c_step]. rewrite Lv. cbn. rewrite N.eqb_refl. repeat split. Qed.
+
+Lemma pending_live s i c : pending s i c -> live s i = true.
+Proof. intros (Hl & ch & Hc & Hd). unfold live. rewrite Hl, Hc, Hd. reflexivity. Qed.
+
+(* slot c: untouched channel, in no table entry, held by nobody *)
+Definition inert (s : cst) (c : nat) : Prop :=
+  (exists ch, nth_error (chans s) c = Some ch /\ fresh_ch ch) /\
+  ~ In c (map snd (table s)) /\
+  (forall k t, nth_error (routers s) k = Some t -> held_by t <> Some c).
+
+Lemma inert_of s s' c :
+  (forall x, In x (table s') -> In x (table s)) ->
+  (exists ch, nth_error (chans s') c = Some ch /\ fresh_ch ch) ->
+  (forall j tj, nth_error (routers s') j = Some tj -> held_by tj <> Some c) ->
+  ~ In c (map snd (table s)) -> inert s' c.
+Proof.
+  intros Sub Hc Hu Ht. split; [exact Hc|]. split; [|exact Hu].
+  intros Hin. apply Ht. apply in_map_iff in Hin as (x & E & Hin). apply in_map_iff. exists x. split; [exact E|apply Sub; exact Hin].
+Qed.
+
+Lemma unheld_upd (l : list rthread) k t pc' c :
+  nth_error l k = Some t ->
+  (forall j tj, nth_error l j = Some tj -> held_by tj <> Some c) ->
+  held_by (with_pc pc' t) <> Some c ->
+  forall j tj, nth_error (upd l k (with_pc pc')) j = Some tj -> held_by tj <> Some c.
+Proof.
+  intros Hk A B j tj Hj. apply nth_error_upd_inv in Hj as [[-> (x & E1 & ->)]|[_ Hj]].
+  - assert (x = t) by congruence. subst x. exact B.
+  - exact (A _ _ Hj).
+Qed.
+
+Lemma refuse_inert s i : inv s -> inert (refuse s i) (length (chans s)).
+Proof.
+  intros (P & T & N & U & O & H & C). unfold inert. cbn [refuse table chans routers].
+  split; [exists (new_chan i); split; [apply nth_error_snoc_new|unfold fresh_ch; cbn; auto]|]. split.
+  - intros Hin. apply in_map_iff in Hin as ([j d] & E & Hin). cbn in E. subst d.
+    destruct (T _ _ Hin) as (ch & E1 & _). apply nth_error_lt in E1. lia.
+  - intros k t Hk Hh. destruct (H _ _ _ Hk Hh) as (ch & E1 & _). apply nth_error_lt in E1. lia.
+Qed.
+
+Lemma inert_step s a c : inv s -> inert s c -> inert (c_step s a) c.
+Proof.
+  intros I ((ch & Hc & Hf) & Ht & Hu). pose proof I as (P & T & N & U & O & H & C).
+  assert (Lt : c < length (chans s)) by (apply nth_error_lt in Hc; exact Hc).
+  assert (Keep : exists ch', nth_error (chans s) c = Some ch' /\ fresh_ch ch') by (exists ch; auto).
+  destruct a as [j|d|r|k|d|d|d].
+  - cbn [c_step]. destruct (live s j).
+    + apply (inert_of s); cbn [refuse table chans routers]; auto.
+      exists ch. split; [apply nth_error_snoc_old; exact Hc|exact Hf].
+    + split; [|split]; cbn [register table chans routers]; [| |exact Hu].
+      * exists ch. split; [apply nth_error_snoc_old; exact Hc|exact Hf].
+      * cbn [map snd]. intros [E|Hin]; [lia|]. apply Ht.
+        apply in_map_iff in Hin as ([j' d'] & E & Hin). apply In_remove_id in Hin as [Hin _].
+        apply in_map_iff. exists (j', d'). auto.
+  - cbn [c_step]. destruct (nth_error (chans s) d); [|split; [exact Keep|split; assumption]].
+    apply (inert_of s); cbn [set_table table chans routers]; auto.
+    intros [j' d'] Hin. apply In_remove_chan in Hin. tauto.
+  - apply (inert_of s); cbn [c_step table chans routers]; auto.
+    intros j tj Hj. apply nth_error_snoc_inv in Hj as [[_ Hj]|[_ ->]]; [exact (Hu _ _ Hj)|discriminate].
+  - rewrite step_router_eq.
+    destruct (router_step_spec s k I) as [Hi|t Hk Hpc Hq|t Hk Hpc Hq Hm|t e ch0 Hk Hpc Hq Hh E1 Eo Ef|t e ch0 Hk Hpc E1 Eo Ef|t e ch0 Hk Hpc E1 Ec|t e ch0 Hk Hpc E1 Ec|t Hk Hpc].
+    + split; [exact Keep|split; assumption].
+    + apply (inert_of s); auto. rewrite set_pc_routers. apply (unheld_upd _ _ t); auto. discriminate.
+    + apply (inert_of s); auto. rewrite set_pc_routers. apply (unheld_upd _ _ t); auto. discriminate.
+    + apply (inert_of s); auto.
+      * cbn [set_pc set_routers set_table table]. intros [j' d'] Hin. apply In_remove_id in Hin. tauto.
+      * rewrite set_pc_routers. cbn [set_table routers]. apply (unheld_upd _ _ t); auto.
+        assert (Ne : e <> c).
+        { intros ->. apply Ht. apply in_map_iff. exists (rid (r_iq t), c). split; [reflexivity|apply lookup_In; exact Hh]. }
+        destruct (c_done ch0); unfold held_by; cbn; congruence.
+    + assert (Ne : e <> c).
+      { intros ->. apply (Hu _ _ Hk). unfold held_by. rewrite Hpc. reflexivity. }
+      apply (inert_of s); auto.
+      * cbn [set_pc set_routers set_chans chans]. exists ch. split; [|exact Hf].
+        rewrite nth_error_upd_other by congruence. exact Hc.
+      * rewrite set_pc_routers. cbn [set_chans routers]. apply (unheld_upd _ _ t); auto.
+        unfold held_by; cbn; congruence.
+    + assert (Ne : e <> c).
+      { intros ->. apply (Hu _ _ Hk). unfold held_by. rewrite Hpc. reflexivity. }
+      apply (inert_of s); auto.
+      * cbn [set_pc set_routers set_chans chans]. exists ch. split; [|exact Hf].
+        rewrite nth_error_upd_other by congruence. exact Hc.
+      * rewrite set_pc_routers. cbn [set_chans routers]. apply (unheld_upd _ _ t); auto. discriminate.
+    + assert (Ne : e <> c).
+      { intros ->. apply (Hu _ _ Hk). unfold held_by. rewrite Hpc. reflexivity. }
+      apply (inert_of s); auto.
+      * cbn [set_pc set_routers set_chans chans]. exists ch. split; [|exact Hf].
+        rewrite nth_error_upd_other by congruence. exact Hc.
+      * rewrite set_pc_routers. cbn [set_chans routers]. apply (unheld_upd _ _ t); auto. discriminate.
+    + apply (inert_of s); auto. rewrite set_pc_routers. cbn [add_ordinary routers].
+      apply (unheld_upd _ _ t); auto. discriminate.
+  - rewrite step_recv_eq. apply (inert_of s); cbn [set_chans table chans routers]; auto.
+    destruct (Nat.eq_dec c d) as [<-|Ne].
+    + exists (recv_ch ch). split; [apply nth_error_upd_same; exact Hc|]. exact (recv_like_fresh _ _ (recv_like_recv ch) Hf).
+    + exists ch. split; [rewrite nth_error_upd_other by exact Ne; exact Hc|exact Hf].
+  - rewrite step_cancel_eq. apply (inert_of s); cbn [set_chans table chans routers]; auto.
+    destruct (Nat.eq_dec c d) as [<-|Ne].
+    + exists (cancel_ch ch). split; [apply nth_error_upd_same; exact Hc|]. exact (recv_like_fresh _ _ (recv_like_cancel ch) Hf).
+    + exists ch. split; [rewrite nth_error_upd_other by exact Ne; exact Hc|exact Hf].
+  - cbn [c_step]. destruct (nth_error (chans s) d) as [ch0|]; [|split; [exact Keep|split; assumption]].
+    destruct (c_done ch0); [|split; [exact Keep|split; assumption]].
+    apply (inert_of s); cbn [set_table table chans routers]; auto.
+    intros [j' d'] Hin. apply In_remove_chan in Hin. tauto.
+Qed.
+
+Lemma refused_step s a :
+  inv s -> refused (c_step s a) = refused s \/
+           (exists i, a = ARegister i /\ live s i = true /\ c_step s a = refuse s i).
+Proof.
+  intros I. destruct a as [j|d|r|k|d|d|d]; try (left; reflexivity).
+  - cbn [c_step]. destruct (live s j) eqn:Lv; [right; exists j; auto|left; reflexivity].
+  - left. cbn [c_step]. destruct (nth_error (chans s) d); reflexivity.
+  - left. rewrite step_router_eq. destruct (router_step_spec s k I); reflexivity.
+  - left. cbn [c_step]. destruct (nth_error (chans s) d) as [ch0|]; [destruct (c_done ch0)|]; reflexivity.
+Qed.
+
+(* every refused request's slot is inert, in every reachable state *)
+Definition refused_inert (s : cst) : Prop := forall c, In c (refused s) -> inert s c.
+
+Lemma refused_inert_step s a : inv s -> refused_inert s -> refused_inert (c_step s a).
+Proof.
+  intros I R c Hin. destruct (refused_step s a I) as [E|(i & -> & Lv & E)].
+  - rewrite E in Hin. apply inert_step; [exact I|apply R; exact Hin].
+  - pose proof (inert_step s (ARegister i) c I) as St. rewrite E in *. cbn [refuse refused] in Hin.
+    apply in_app_iff in Hin as [Hin|[<-|[]]]; [apply St, R; exact Hin|apply refuse_inert; exact I].
+Qed.
+
+Lemma inv_all_run l : forall s,
+  inv s -> only_responses s -> refused_inert s ->
+  inv (c_run s l) /\ only_responses (c_run s l) /\ refused_inert (c_run s l).
+Proof.
+  induction l as [|a l IH]; intros s I R F; [auto|]. rewrite c_run_cons. apply IH.
+  - apply inv_step; exact I.
+  - apply only_responses_step; assumption.
+  - apply refused_inert_step; assumption.
+Qed.
+
+(* ------------------------------------------------------------------ *)
 (* the statements for every schedule from the initial state            *)
 
 Lemma reach_at_most_once l :
@@ -1278,6 +1526,7 @@ Qed.
 
 Lemma reach_early_response_any_time l0 i l v :
   let s0 := c_run c_init l0 in
+  live s0 i = false ->
   let c := length (chans s0) in
   let s1 := c_step s0 (ARegister i) in
   untouched s1 i c l = true ->
@@ -1307,4 +1556,76 @@ Proof.
   fold k in G1, G2, G3, G4, G5. fold s' in G1, G2, G3, G4, G5.
   split; [|split; [exact G2|split; [rewrite G3; apply lookup_remove_id_same|split; assumption]]].
   exists (close_ch ch). split; [exact G1|]. cbn [close_ch c_closed c_buf c_got]. auto.
+Qed.
+
+Lemma reach_all l :
+  inv (c_run c_init l) /\ only_responses (c_run c_init l) /\ refused_inert (c_run c_init l).
+Proof.
+  apply inv_all_run; [exact inv_init|exact only_responses_init|]. intros c [].
+Qed.
+
+(* a request (get/set) never reaches a SendIQ caller and no goroutine routing one ever owns a
+   pending entry's channel *)
+Lemma reach_only_responses l :
+  let s := c_run c_init l in
+  (forall c ch v, nth_error (chans s) c = Some ch -> (c_buf ch = Some v \/ In v (c_got ch)) -> rreq v = false) /\
+  (forall k t, nth_error (routers s) k = Some t -> rreq (r_iq t) = true ->
+     r_pc t = RStart \/ r_pc t = ROrd \/ r_pc t = RDone).
+Proof.
+  cbn zeta. destruct (reach_all l) as (_ & (R1 & R2) & _). split; [exact R2|].
+  intros k t Hk Hq. destruct (r_pc t) as [|c|c|c| |] eqn:Hpc; auto;
+    (assert (Hh : held_by t = Some c) by (unfold held_by; rewrite Hpc; reflexivity));
+    rewrite (R1 _ _ _ Hk Hh) in Hq; discriminate Hq.
+Qed.
+
+(* a clashing SendIQ: the id is still awaiting its response *)
+Lemma reach_refused l i c :
+  let s := c_run c_init l in
+  lookup i (table s) = Some c ->
+  (forall ch, nth_error (chans s) c = Some ch -> c_done ch = false) ->
+  let s' := c_step s (ARegister i) in
+  table s' = table s /\ routers s' = routers s /\ ordinary s' = ordinary s /\ arrived s' = arrived s /\
+  chans s' = chans s ++ [new_chan i] /\ refused s' = refused s ++ [length (chans s)] /\
+  forall l', let s'' := c_run s' l' in
+    exists ch, nth_error (chans s'') (length (chans s)) = Some ch /\
+               c_buf ch = None /\ c_got ch = [] /\ c_closed ch = false.
+Proof.
+  intros s Hl Hd s'. destruct (reach_all l) as (I & _ & F). fold s in I, F.
+  assert (Lv : live s i = true).
+  { pose proof I as (_ & T & _). destruct (T _ _ (lookup_In _ _ _ Hl)) as (ch & E0 & _).
+    unfold live. rewrite Hl, E0, (Hd _ E0). reflexivity. }
+  destruct (refused_spec s i Lv) as (G1 & G2 & G3 & G4 & G5 & G6 & _). fold s' in G1, G2, G3, G4, G5, G6.
+  repeat (split; [assumption|]).
+  intros l' s''. assert (In0 : inert s' (length (chans s))).
+  { unfold s'. cbn [c_step]. rewrite Lv. apply refuse_inert. exact I. }
+  assert (Run : forall l1 s1, inv s1 -> inert s1 (length (chans s)) -> inert (c_run s1 l1) (length (chans s))).
+  { induction l1 as [|a l1 IH]; intros s1 I1 N1; [exact N1|]. rewrite c_run_cons.
+    apply IH; [apply inv_step; exact I1|apply inert_step; assumption]. }
+  destruct (Run l' s' (inv_step _ _ I) In0) as ((ch & Hc & Hcl & Hb & Hg) & _).
+  exists ch. auto.
+Qed.
+
+(* in every reachable state the slots of all refused requests are empty and untouched *)
+Lemma reach_refused_inert l :
+  let s := c_run c_init l in
+  forall c, In c (refused s) ->
+    (exists ch, nth_error (chans s) c = Some ch /\ c_buf ch = None /\ c_got ch = [] /\ c_closed ch = false) /\
+    ~ In c (map snd (table s)).
+Proof.
+  cbn zeta. intros c Hin. destruct (reach_all l) as (_ & _ & F).
+  destruct (F c Hin) as ((ch & Hc & Hcl & Hb & Hg) & Ht & _). split; [exists ch; auto|exact Ht].
+Qed.
+
+(* a pending request is never displaced by a clashing registration, nor consumed by a
+   request (get/set) carrying its id *)
+Lemma reach_pending_kept l i c a :
+  let s := c_run c_init l in
+  pending s i c ->
+  (exists j, a = ARegister j) \/
+  (exists k t, a = ARouter k /\ nth_error (routers s) k = Some t /\ rreq (r_iq t) = true) ->
+  pending (c_step s a) i c.
+Proof.
+  intros s Pn Ha. apply pending_step; [apply inv_reachable|exact Pn|].
+  destruct Ha as [(j & ->)|(k & t & -> & Hk & Hq)]; [reflexivity|].
+  cbn [touches]. fold s. rewrite Hk. destruct (r_pc t); try reflexivity. rewrite Hq. reflexivity.
 Qed.
